@@ -234,12 +234,25 @@ fn check_last_word(sim: &mut Sim, final_: bool) {
                         let lower = |w: &str| w.to_lowercase().replace(['’', '‘'], "'");
                         let all: Vec<&String> = user.iter().chain(file.iter()).collect();
                         let variant = all.iter().any(|a| **a != flagged && lower(a) == lower(&flagged));
+                        // is it a word the curated dictionary lists for another dialect only?
+                        let fchars: Vec<char> = flagged.chars().collect();
+                        let other_dialect = {
+                            use harper_core::Dictionary as _;
+                            harper_core::FstDictionary::curated().get_word_metadata(&fchars).and_then(|m| m.dialect).map(|d| d != settings.dialect()).unwrap_or(false)
+                        };
+                        let class = if variant {
+                            "case_variant_replaced"
+                        } else if other_dialect {
+                            "other_dialect_word_added"
+                        } else {
+                            "added_word_still_flagged"
+                        };
                         sim.res.violate(Violation {
                             property: "C07".into(),
                             oracle: "C07.added_word_not_misspelt".into(),
-                            class: if variant { "case_variant_replaced".into() } else { "added_word_still_flagged".into() },
+                            class: class.into(),
                             detail: format!("{} ({}): '{}' is in the dictionaries the user built ({:?} / {:?}) and is reported as misspelt all the same, even by a fresh linter", doc.uri, doc.lang, flagged, user, file),
-                            facts: json!({"class": if variant { "case_variant_replaced" } else { "added_word_still_flagged" }}),
+                            facts: json!({"class": class}),
                         });
                         break;
                     }
@@ -495,8 +508,9 @@ fn check_closed_world(sim: &mut Sim, final_: bool) {
         } else {
             continue;
         };
-        if !write_allowed(sim, &path) && !(final_ && renamed_ok.contains(&norm(&path))) && !(!final_ && renamed_ok.contains(&norm(&path))) {
-            // a temp file not (yet) renamed: only an error once the command has finished, i.e. at quiescence — which is now
+        // (a temporary file is only excused once it has been renamed onto the configured file:
+        // the check runs at quiescence, when every command has finished)
+        if !write_allowed(sim, &path) && !renamed_ok.contains(&norm(&path)) {
             bad.push(l.clone());
         }
     }
